@@ -73,6 +73,42 @@ def pass_part(ctx, lines, reals):
     return worst
 
 
+class _Slow(BaseException):
+    pass
+
+
+def _slow(signum, frame):
+    raise _Slow()
+
+
+STRESS = ['"src/*.c" ' + 'abcdefghij' * 5 + '\n', 'a/*p' + 'x' * 60, ' ' * 200 + 'x\n', '(' * 40 + '\n', '0' * 80 + '\n', 'a ? ' * 30 + '\n', '#' * 50 + '\n',
+          '/*' * 30 + '\n', 'x = ' + '1' * 60 + ';\n', '\\\n' * 40, '"' + 'a' * 100 + '\n', '// ' + '/' * 80 + '\n', 'a' * 30 + '(' + 'b,' * 40 + '\n',
+          '0x' + 'F' * 60 + 'uL\n', '{' * 25 + ';' + '}' * 24 + '\n']
+
+
+def stress_part(ctx):
+    """the work for one candidate is bounded too: inputs built to make a careless pattern backtrack (unclosed comment or
+    string, long runs of one character, deep unclosed nesting) must not stall a pass"""
+    import signal
+    n = 0
+    for name, arg in T.PASSES:
+        for text in STRESS:
+            signal.signal(signal.SIGALRM, _slow)
+            signal.setitimer(signal.ITIMER_REAL, 6.0)
+            try:
+                kpass.drive_real(name, arg, text, [False, True, False, False], ctx.scratch)
+            except _Slow:
+                ctx.report(f'pass-stalls-on-one-candidate:{name}', f'{name}::{arg} did not get through 4 candidates in 6 s on {text[:50]!r}… ({len(text)} characters)',
+                           {'kind': 'stress', 'pass': name, 'arg': arg, 'text': text})
+            except Exception:
+                pass
+            finally:
+                signal.setitimer(signal.ITIMER_REAL, 0)
+            n += 1
+    ctx.cov['evaluations'] += n
+    ctx.notes['stress_runs'] = n
+
+
 def tree_part(ctx):
     """the full verdict tree for small inputs: every accept/reject sequence ends"""
     rng = ctx.rng
@@ -128,6 +164,14 @@ def run(ctx):
             fn = (lambda i: False) if h == 'all-reject' else (lambda i: True) if h == 'all-accept' else (lambda i: i % 2 == 0) if h == 'alternate' else \
                 (lambda i: (int(h.split(':')[1]) >> (i % 30)) & 1 == 1) if isinstance(h, str) else (lambda i: h[i] if i < len(h) else False)
             drive(ctx, o['pass'], o['arg'], o['text'], fn, str(h))
+        elif o.get('kind') == 'stress':
+            global STRESS
+            saved, passes = STRESS, T.PASSES
+            STRESS, T.PASSES = [o['text']], [(o['pass'], o['arg'])]
+            try:
+                stress_part(ctx)
+            finally:
+                STRESS, T.PASSES = saved, passes
         else:
             D.replay_drv(ctx, o, [])
         print('replayed ->', 'fails' if ctx.violations else 'holds')
@@ -140,6 +184,7 @@ def run(ctx):
         if r != m:
             diffs.append({**sc, 'real': r[:300], 'model': m[:300]})
     ntree = tree_part(ctx)
+    stress_part(ctx)
     main_loop_part(ctx, diffs)
     ctx.sample({'worst_candidate_counts(pass: [candidates, input length])': dict(sorted(worst.items())[:8])})
     conclude(ctx, diffs, None)
